@@ -25,7 +25,7 @@ VARIABLES st, copied, nops, hist
 vars == <<st, copied, nops, hist>>
 
 Sides == IF copied THEN {"orig", "copy"} ELSE {"orig"}
-Obj0 == [n |-> 0, l |-> 0, leaf |-> TRUE, x |-> 0, pb |-> 0, attr |-> 0, pd |-> 0]     \* pd: per-instance `default` attribute of an unwatched parameter u
+Obj0 == [n |-> 0, l |-> 0, leaf |-> TRUE, x |-> 0, pb |-> 0, attr |-> 0, pd |-> 0, po |-> 0]     \* pd: per-instance `default` attribute of an unwatched parameter u
 Init == /\ st \in {[orig |-> [Obj0 EXCEPT !.leaf = lf], copy |-> Obj0] : lf \in BOOLEAN}
         /\ copied = FALSE /\ nops = 0 /\ hist = <<>>
 Rec(name, args, calls, s2) ==
@@ -38,6 +38,9 @@ Step == nops < MaxOps /\ nops' = nops + 1
 \* (route: attribute assignment or param.update)
 SetN(sd, v, route) == /\ Step /\ sd \in Sides /\ st' = [st EXCEPT ![sd].n = v] /\ UNCHANGED copied
                /\ Rec("setn", [side |-> sd, v |-> v, route |-> route], IF st[sd].n # v THEN {<<sd, "k">>} ELSE {}, st')
+\* the per-instance objects of a non-checking Selector are replaced by a list that lacks the declared default
+SetPO(sd) == /\ Step /\ sd \in Sides /\ st[sd].po = 0 /\ st' = [st EXCEPT ![sd].po = 1] /\ UNCHANGED copied
+             /\ Rec("setpo", [side |-> sd], {}, st')
 \* `obj.param.u.default = d`: a per-instance Parameter attribute of a parameter nobody watches
 SetPD(sd, d) == /\ Step /\ sd \in Sides /\ st' = [st EXCEPT ![sd].pd = d] /\ UNCHANGED copied
                 /\ Rec("setpd", [side |-> sd, d |-> d], {}, st')
@@ -57,7 +60,7 @@ DoCopy(mech) == /\ Step /\ ~copied /\ copied' = TRUE /\ st' = [st EXCEPT !.copy 
                 /\ Rec("copy", [mech |-> mech], {}, st')
 
 Next == \/ \E sd \in {"orig", "copy"} : \/ \E v \in {0, 1} : SetN(sd, v, "attr") \/ SetN(sd, v, "update") \/ SetPD(sd, v + 1) \/ SetX(sd, v) \/ Attach(sd, v) \/ SetAttr(sd, v)
-                                       \/ Mutate(sd) \/ \E b \in {1, 2} : SetPB(sd, b)
+                                       \/ Mutate(sd) \/ SetPO(sd) \/ \E b \in {1, 2} : SetPB(sd, b)
         \/ \E mech \in Mechs : DoCopy(mech)
 Spec == Init /\ [][Next]_vars
 
